@@ -221,13 +221,17 @@ pub fn check(a: &Analysis, aux: &mut Aux, t: &mut Tally) -> Vec<Violation> {
             x ^= x << 17;
             x
         };
-        let walks = aux.samples.min(6);
+        let walks = aux.samples.min(6) * 2;
         let nonce = aux.nonce.clone();
         let clock = a.hist.start_ms;
         for _ in 0..walks {
             let k = (next() % sigs.len() as u64) as usize;
             let target = &sigs[k];
             let leave_at = if next() % 3 == 0 { (next() % (target.pat.len() as u64 + 1)) as usize } else { usize::MAX };
+            // every other walk has a companion: another signature whose literals are used at all
+            // the target's wildcard positions, so that the string runs along two signatures at once
+            // (the merged branches of the compiled matcher)
+            let companion: Option<usize> = if next() % 2 == 0 { Some((next() % sigs.len() as u64) as usize) } else { None };
             let mut prefix: Vec<u8> = Vec::new();
             for (j, p) in target.pat.iter().enumerate() {
                 if j == leave_at {
@@ -237,6 +241,14 @@ pub fn check(a: &Analysis, aux: &mut Aux, t: &mut Tally) -> Vec<Violation> {
                 match p {
                     Some(b) => prefix.push(*b),
                     None => {
+                        if let Some(c) = companion {
+                            if let Some(Some(b)) = sigs[c].pat.get(j) {
+                                if next() % 16 != 0 {
+                                    prefix.push(*b);
+                                    continue;
+                                }
+                            }
+                        }
                         // wildcard: a literal some other signature has at this position, '*', or random
                         let lits: Vec<u8> = sigs.iter().filter_map(|o| o.pat.get(j).copied().flatten()).collect();
                         let b = match next() % 4 {
@@ -247,6 +259,9 @@ pub fn check(a: &Analysis, aux: &mut Aux, t: &mut Tally) -> Vec<Violation> {
                         prefix.push(b);
                     }
                 }
+            }
+            if companion.is_some() {
+                t.probe("matcher-walk-along-two-signatures");
             }
             // a few bytes beyond the signature
             for _ in 0..(next() % 4) {
